@@ -130,18 +130,25 @@ var vf18CrashKinds = []vf18CrashKind{
 	{"restart-invalid-iat", true},
 }
 
-func TestVerifC18CrashStart(t *testing.T) {
+// One test function per start kind (the driver demands "passed N" from each),
+// so that a rapid case is one traced start and shrinking stays cheap.
+func TestVerifC18CrashStartFirst(t *testing.T)         { vf18CrashStartTest(t, vf18CrashKinds[0]) }
+func TestVerifC18CrashStartRestart(t *testing.T)       { vf18CrashStartTest(t, vf18CrashKinds[1]) }
+func TestVerifC18CrashStartRestartIAT(t *testing.T)    { vf18CrashStartTest(t, vf18CrashKinds[2]) }
+func TestVerifC18CrashStartRestartExpl(t *testing.T)   { vf18CrashStartTest(t, vf18CrashKinds[3]) }
+func TestVerifC18CrashStartFirstExpl(t *testing.T)     { vf18CrashStartTest(t, vf18CrashKinds[4]) }
+func TestVerifC18CrashStartRestartBadIAT(t *testing.T) { vf18CrashStartTest(t, vf18CrashKinds[5]) }
+
+func vf18CrashStartTest(t *testing.T, kind vf18CrashKind) {
 	e := ev.For("C18")
-	e.Rule("crash-start: for each start kind (first start, restart, restart with iat-mode override, restart with explicit credentials, first start with explicit credentials, restart with an invalid iat-mode) a pre-history of 1-3 completed starts (plain / override / explicit) is run in-process, then the helper performs the start under strace; crash states = pre-start directory + every prefix of the recorded calls on the state directory + torn prefixes of every write (all lengths <= 512 bytes, boundaries and a spread above; thorough: all lengths); on every crash state a plain start (and a second one) runs in-process; non-trivial = crash state whose directory content differs from both the pre-start and the post-start directory; fingerprint = (kind, pre-history, call index, torn length)")
+	e.Rule("crash-start: for each start kind (first start, restart, restart with iat-mode override, restart with explicit credentials, first start with explicit credentials, restart with an invalid iat-mode) a pre-history of 1-3 completed starts (plain / override / explicit) is run in-process, then the helper (re-executed test binary) performs the start under strace; crash states = pre-start directory + every prefix of the recorded calls on the state directory + torn prefixes of every write (all lengths <= 512 bytes, boundaries and a spread above; thorough: all lengths); on every crash state a plain start (and a second one) runs in-process; non-trivial = crash state whose directory content differs from both the pre-start and the post-start directory; fingerprint = (kind, pre-history, call index, torn length)")
 	e.Assume("crash model: the process is killed; completed system calls persist in program order; a single write may be torn at any byte; fsync is a no-op (no power loss, no reordering of completed calls)")
 	e.Assume("strace -f -y -xx records every call on the state directory; the replayer is validated on every trace by comparing the replayed final state with the directory the helper left behind")
 	tornAll := ev.Thorough()
 	rapid.Check(t, func(rt *rapid.T) {
 		detrand.Seed(rapid.Uint64().Draw(rt, "rng"))
 		defer detrand.Real()
-		for _, kind := range vf18CrashKinds {
-			vf18CrashCase(rt, e, kind, tornAll)
-		}
+		vf18CrashCase(rt, e, kind, tornAll)
 	})
 }
 
